@@ -54,13 +54,14 @@ CLAIM = dict(
          'Partial: finiteness (no overflow, no NaN) of float results is not a Coq theorem; it is validated on every run: '
          'the models at binary64 with replayed LAPACK outputs agree with the implementation (shapes exactly, dense '
          'tensors to 1e-9) on the degenerate catalogue, and a search checks np.isfinite + well-formedness of every '
-         'TT-returning routine and finiteness / sentinel of the scalar functions on that catalogue. Known finding (tagged, not a violation): accuracy_on_data and e_vld of als / cross return NaN when max|y_data| is '
+         'TT-returning routine and finiteness / sentinel of the scalar functions on that catalogue. Known findings (tagged, not violations): als with r given and use_stab=True raises AttributeError for every input (key C11/als-adaptive-use_stab-raises; any other outcome stays a violation); accuracy_on_data and e_vld of als / cross return NaN when max|y_data| is '
          'above 1e154, because the squared reference overflows (key C11/accuracy_on_data-reference-overflow; fixed '
          'regression inputs in the search; reference values up to 1e150 and down to 5e-324 are in the verdict). The '
          'composition of the ANOVA pieces into anova(order=2) and anova_func are covered by that search only (no C11 theorem); '
          'the models Qtt.v / Als.v / AlsFunc.v / Cross.v / Func.v are tied to the code by the C17 / C07 / C06 / C12 '
          'correspondences, here only through the implementation-level search.',
-    note='Trusted: Coq kernel; vm_compute for case evaluation; hand-written models Model/Svd.v, Model/Transformation.v, '
+    note='Scope (documented preconditions, not in the verdict): a Chebyshev grid needs >= 2 nodes (func_gets(A, 1), func_int, func_int_full, ind_to_poi with a mode of size 1 are outside; size-1 COEFFICIENT modes and a single basis function are inside); als_func needs equal mode sizes; accuracy on dense ndarrays is a convenience branch, not a TT routine; accuracy(huge, zero) = 1e299 (saturation tested before the sentinel) is an observation recorded in DESIGN; the non-terminating cross(f = 0, e only) is a C06 finding. '
+         'Trusted: Coq kernel; vm_compute for case evaluation; hand-written models Model/Svd.v, Model/Transformation.v, '
          'Model/Stab.v, Model/Wf.v tied to teneva by the correspondence; shape contracts of LAPACK qr / rq / svd '
          '(validated on every recorded call); the order facts 0<x -> x<>0, not 0<0, 0==0 about the carrier (proved for '
          'Qc, C11_laws_Qc).',
@@ -750,6 +751,30 @@ def check_accuracy(tn, Y1, Y2):
 
 
 KF_AOD = 'C11/accuracy_on_data-reference-overflow'
+KF_ALS = 'C11/als-adaptive-use_stab-raises'
+
+
+def check_als_adaptive_stab(tn, ns, kind, seed, r):
+    """rank-adaptive als (r given) with use_stab=True: expected a well-formed finite tensor.  The AttributeError raised
+    because orthogonalize(Y, 0, use_stab) returns the pair (Z, p) is the known finding KF_ALS; any other exception or a
+    malformed / non-finite result is a violation."""
+    inp = dict(routine='als_adaptive_stab', ns=ns, kind=kind, seed=seed, r=r)
+    I, y = _data_for(C.Rng(seed), ns, kind)
+    try:
+        Z = tn.als(I, y, tn.rand(ns, 1, seed=3), nswp=2, r=r, use_stab=True, info={})
+    except AttributeError as e:
+        if "'list' object has no attribute 'shape'" in str(e):
+            return dict(what=f'als(r={r}, use_stab=True) raised {e!r}: the stabilised orthogonalize returns (Z, p) and the pair '
+                             f'is used as the tensor', input=inp, finding_key=KF_ALS)
+        return dict(what=f'als(r={r}, use_stab=True) raised {e!r}'[:300], input=inp)
+    except Exception as e:  # noqa
+        return dict(what=f'als(r={r}, use_stab=True) raised {e!r}'[:300], input=inp)
+    w = wf_shape(Z, ns)
+    if w:
+        return dict(what=f'als(r={r}, use_stab=True) returned an ill-formed tensor: {w}', input=inp)
+    if not finite_tt(Z):
+        return dict(what=f'als(r={r}, use_stab=True) returned non-finite entries', input=inp)
+    return None
 
 
 def check_aod(tn, Y, I, y):
@@ -865,6 +890,106 @@ def check_scale(tn, what, Y, kw, tol):
     return None
 
 
+# ---- mode size 1 / single basis function / one sample: func.py, func_full.py, anova_func.py, constructors ----
+def _cheb_ref(F, X, a, b):
+    """dense reference: sum_idx F[idx] prod_k T_{idx_k}(x_k scaled to [-1, 1])"""
+    from numpy.polynomial import chebyshev as Ch
+    out = []
+    for x in X:
+        V = np.asarray(F, dtype=float)
+        for k in range(V.ndim):
+            t = (2. * x[k] - b[k] - a[k]) / (b[k] - a[k])
+            basis = np.array([Ch.chebval(t, [0.] * i + [1.]) for i in range(V.shape[0])])
+            V = np.tensordot(basis, V, 1)
+        out.append(float(V))
+    return np.array(out)
+
+
+def check_size1(tn, what, arg):
+    inp = dict(routine='size1', what=what, arg=arg)
+    rr = C.Rng(arg.get('seed', 0))
+    ns = arg.get('ns', [1, 3])
+    d = len(ns)
+    kind = arg.get('kind', 'generic')
+    rs = [1] + [1 if kind in ('rank1', 'constant') else 2] * (d - 1) + [1]
+    A = rand_tt(rr, ns, rs, 1, 3)
+    if kind == 'zero':
+        A = [G * 0. for G in A]
+    elif kind == 'constant':
+        A = [np.ones_like(G) * 2. for G in A]
+    a, b = [-2.] * d, [2.] * d            # func_sum_full accepts symmetric grids only
+    X = np.array([[rr.choice([-2., -0.25, 0., 0.5, 2.]) for _ in range(d)] for _ in range(4)])
+    F = full(A)
+    exp_ns, ref, tt_out = None, None, None
+    try:
+        if what == 'func_get':
+            got, ref = tn.func_get(X, A, a, b), _cheb_ref(F, X, a, b)
+        elif what == 'func_get_full':
+            got, ref = tn.func_get_full(X, F, a, b), _cheb_ref(F, X, a, b)
+        elif what in ('func_sum', 'func_sum_full'):
+            got = tn.func_sum(A, a, b) if what == 'func_sum' else tn.func_sum_full(F, a, b)
+            V = F
+            for k in range(d):
+                w = np.array([0. if i % 2 else 2. / (1. - i * i) for i in range(V.shape[0])]) * (b[k] - a[k]) / 2.
+                V = np.tensordot(w, V, 1)
+            got, ref = np.array([float(got)]), np.array([float(V)])
+        elif what == 'func_gets':
+            m = arg['m']
+            tt_out = tn.func_gets(A, **({} if m is None else dict(m=m)))
+            exp_ns = list(ns) if m is None else ([m] * d if isinstance(m, int) else list(m))
+            got = None
+        elif what == 'func_gets_full':
+            m = arg['m']
+            got = tn.func_gets_full(F, a, b, **({} if m is None else dict(m=m)))
+            want = tuple(ns) if m is None else tuple([m] * d)
+            if tuple(np.shape(got)) != want:
+                return dict(what=f'func_gets_full returned shape {np.shape(got)}, expected {want}', input=inp)
+        elif what == 'func_int_general':
+            Yv = tn.func_gets(A, 3)
+            pts = [np.array([-2., 0.5, 2.])] * d
+            tt_out = tn.func_int_general(Yv, pts, lambda x: tn.func_basis(x, 1))      # a single basis function
+            exp_ns, got = [1] * d, None
+        elif what == 'func_basis':
+            got = tn.func_basis(X, 1)
+            if np.shape(got) != (1,) + X.shape or not np.all(got == 1.):
+                return dict(what=f'func_basis(X, 1) is not the constant function T_0 = 1 of shape {(1,) + X.shape}', input=inp)
+        elif what == 'func_diff_matrix':
+            got = tn.func_diff_matrix(-2., 2., arg.get('n', 1), m=arg.get('m', 1))
+            got = np.concatenate([np.ravel(g) for g in got]) if isinstance(got, (list, tuple)) else got
+        elif what == 'sample':
+            got = np.vstack([tn.sample_lhs(ns, 1, seed=arg.get('seed', 0)), tn.sample_rand(ns, 1, seed=arg.get('seed', 0))])
+            if got.shape != (2, d) or np.any(got < 0) or np.any(got >= np.array(ns)):
+                return dict(what=f'sample_lhs / sample_rand with one sample returned {got.tolist()} for n = {ns}', input=inp)
+        elif what == 'constructors':
+            for nm, Zc in (('poly', tn.poly(ns)), ('delta', tn.delta(ns, [n - 1 for n in ns])), ('rand', tn.rand(ns, 2, seed=1)),
+                           ('rand_norm', tn.rand_norm(ns, 2, seed=1)), ('rand_stab', tn.rand_stab(ns, 2, seed=1)),
+                           ('const', tn.const(ns, 3.))):
+                w = wf_shape(Zc, ns)
+                if w or not finite_tt(Zc):
+                    return dict(what=f'{nm}({ns}) is ill-formed / not finite: {w}', input=inp)
+            return None
+        elif what == 'optima_func':
+            got = np.ravel(tn.optima_func_tt_beam(A, k=2)[1])
+        else:
+            raise KeyError(what)
+    except Exception as e:  # noqa
+        return dict(what=f'{what} raised on a valid input with a mode of size 1 / a single basis function: {e!r}'[:300], input=inp)
+    if tt_out is not None:
+        w = wf_shape(tt_out, exp_ns)
+        if w:
+            return dict(what=f'{what} returned an ill-formed tensor: {w}', input=inp)
+        if not finite_tt(tt_out):
+            return dict(what=f'{what} returned non-finite entries for a coefficient tensor with a mode of size 1', input=inp)
+        return None
+    if not np.isfinite(np.asarray(got, dtype=float)).all():
+        return dict(what=f'{what} returned non-finite values for a coefficient tensor with a mode of size 1', input=inp)
+    if ref is not None:
+        err = float(np.max(np.abs(np.asarray(got, dtype=float).reshape(-1) - ref)))
+        if err > 1e-9 * max(1., float(np.max(np.abs(ref)))):
+            return dict(what=f'{what} differs from the dense Chebyshev reference by {err:.3e}', input=inp)
+    return None
+
+
 def _data_for(rng, ns, kind):
     """training data for the fitting routines: every slice of every mode is covered; repeated samples included"""
     I = []
@@ -907,6 +1032,8 @@ def check_fit(tn, name, ns, kind, seed, extra):
             kw = {}
             if 'lamb' in extra:                       # absent = the default; None and 0. are documented values
                 kw['lamb'] = extra['lamb']
+            if 'adaptive_r' in extra:                 # rank-adaptive mode, use_stab off
+                kw['r'] = extra['adaptive_r']
             info = {}
             vs = extra.get('vld_scale')
             yv = (y * vs if np.any(y) else np.full(len(y), vs)) if vs else (y if extra.get('vld') else None)
@@ -1085,6 +1212,10 @@ def _replay_one(tn, inp):
         return check_accuracy(tn, tt_of_json(inp['Y']), tt_of_json(inp['Y2']))
     if r == 'accuracy_on_data':
         return check_aod(tn, tt_of_json(inp['Y']), inp['I'], inp['y'])
+    if r == 'als_adaptive_stab':
+        return check_als_adaptive_stab(tn, inp['ns'], inp['kind'], inp['seed'], inp['r'])
+    if r == 'size1':
+        return check_size1(tn, inp['what'], inp['arg'])
     if r == 'scale':
         return check_scale(tn, inp['what'], tt_of_json(inp['Y']), inp['kwargs'], inp['tol'])
     if r in ('anova', 'als', 'cross'):
@@ -1245,6 +1376,35 @@ def search(R, ctx, deep, hints):
             for (a_, b_) in WIN:
                 n_eval += 1
                 add(check_misc(tn, '_maxvol', dict(A=Q.tolist(), dr_min=a_, dr_max=b_)))
+    # 4f. mode size 1 / a single basis function / n = 1 / one sample, for every routine that takes a size or a count
+    for ns in [[1, 3], [3, 1], [1, 1], [2, 1, 3], [1, 1, 1], [1, 2, 1, 2]] + ([[1, 4, 1], [5, 1]] if deep else []):
+        for kind in ('zero', 'constant', 'rank1', 'generic'):
+            base = dict(ns=ns, kind=kind, seed=rng.randrange(10 ** 6))
+            for what in ('func_get', 'func_get_full', 'func_sum', 'func_sum_full', 'func_int_general', 'func_basis',
+                         'optima_func'):
+                n_eval += 1
+                add(check_size1(tn, what, dict(base)))
+            for m in (2, 3, [2] * len(ns), [3, 2] * (len(ns) // 2) + [2] * (len(ns) % 2), None):
+                n_eval += 1
+                add(check_size1(tn, 'func_gets', dict(base, m=m)))
+            for m in (2, 3, None):
+                n_eval += 1
+                add(check_size1(tn, 'func_gets_full', dict(base, m=m)))
+        n_eval += 2
+        add(check_size1(tn, 'sample', dict(ns=ns, seed=rng.randrange(10 ** 6))))
+        add(check_size1(tn, 'constructors', dict(ns=ns)))
+    for n_ in (1, 2):
+        for m_ in (1, 2):
+            n_eval += 1
+            add(check_size1(tn, 'func_diff_matrix', dict(n=n_, m=m_)))
+    for d_ in (2, 3):
+        for kind in ('zero', 'constant', 'delta', 'rank1'):
+            for kw in (dict(), dict(e=0.)):
+                n_eval += 1
+                add(check_misc(tn, 'anova_func', dict(d=d_, m=8, n=1, kind=kind, seed=rng.randrange(10 ** 6), kw=kw)))
+            for lk in LAMB:
+                n_eval += 1
+                add(check_misc(tn, 'als_func', dict(d=d_, m=8, n=1, kind=kind, y0='rand', r=1, seed=rng.randrange(10 ** 6), **lk)))
     # 4c. reference values whose squares underflow / approach overflow: finite value or the sentinel -1, never NaN
     for ns in ([3, 2], [2, 3, 2]):
         Ia = [[rng.randrange(n) for n in ns] for _ in range(4)]
@@ -1271,6 +1431,11 @@ def search(R, ctx, deep, hints):
     n_eval += 2
     add(check_fit(tn, 'als', [3, 2], 'constant', 7, dict(r=2, nswp=2, vld_scale=1e200)))
     add(check_fit(tn, 'cross', [3, 2], 'constant', 7, dict(r=1, nswp=2, m=200, vld_scale=1e200)))
+    # 4g. fixed regression cases of the known finding C11/als-adaptive-use_stab-raises, and the same flag off (must work)
+    for ns_, kind_, r_ in (([3, 3, 3], 'rank1', 2), ([3, 2], 'constant', 2), ([2, 1, 3], 'zero', 3)):
+        n_eval += 2
+        add(check_als_adaptive_stab(tn, ns_, kind_, 11, r_))
+        add(check_fit(tn, 'als', ns_, kind_, 11, dict(r=1, nswp=2, adaptive_r=r_)))
     # 5. scale families x every routine with a use_stab path, plus accuracy
     sfam = {}
     for fam, Y, tol in scale_catalogue(rng, big=deep):
